@@ -11,7 +11,7 @@ Trace == ndJsonDeserialize(IOEnv.TRACE)
 VARIABLES l, st, rej
 vars == <<l, st, rej>>
 
-NoRun == [id |-> "", f |-> <<>>, fulls |-> <<>>]
+NoRun == [id |-> "", f |-> <<>>, fulls |-> <<>>, tmax |-> 0]
 
 FullOf(s, via, validate) ==
   LET x == Sel(s.fulls, LAMBDA u : u.via = via /\ u.validate = validate) IN x[1]
@@ -26,7 +26,7 @@ JudgeFull(s, e) ==
 
 Judge(s, e) ==
   CASE e.ev = "Full" -> JudgeFull(s, e)
-    [] e.ev = "Cut"  /\ HasFull(s, e.via, e.validate) -> Failed("C09", PrefixReadNames(e, s.f, FullOf(s, e.via, e.validate).n))
+    [] e.ev = "Cut"  /\ HasFull(s, e.via, e.validate) -> Failed("C09", PrefixReadNames(e, s.f, FullOf(s, e.via, e.validate).n, s.tmax))
     [] e.ev = "Frag" /\ HasFull(s, e.via, e.validate) -> Failed("C15/Fragmented", FragmentedNames(e, FullOf(s, e.via, e.validate)))
     [] e.ev = "Fault" /\ HasFull(s, e.via, e.validate) -> Failed("C15/SourceFault", SourceFaultNames(e, FullOf(s, e.via, e.validate)))
     [] e.ev = "Flip" /\ HasFull(s, "lex", TRUE) ->
@@ -38,7 +38,7 @@ Judge(s, e) ==
     [] OTHER -> {}
 
 Step(s, e) ==
-  CASE e.ev = "Run"  -> [id |-> e.id, f |-> <<>>, fulls |-> <<>>]
+  CASE e.ev = "Run"  -> [id |-> e.id, f |-> <<>>, fulls |-> <<>>, tmax |-> e.tmax]
     [] e.ev = "File" -> [s EXCEPT !.f = e]
     [] e.ev = "Full" -> [s EXCEPT !.fulls = Append(@, e)]
     [] e.ev = "End"  -> NoRun
